@@ -193,6 +193,403 @@ func (e *E3) survey() {
 
 var _ = token.ADD
 
-// placeholder wiring; replaced below by the real obligations
+
+// ---- G1: explicit panics -----------------------------------------------------------
+
+// reviewedPanics: explicit panics whose guarding condition involves a value
+// that the (over-approximate) taint reaches, confirmed by reading NOT to be
+// peer-triggerable. Key: function|message. Any tainted panic not listed here is
+// a violation; entries that no longer match anything are reported as notes.
+var reviewedPanics = map[string]string{
+	"fdo.hmacHash|HMAC-SHA256 support is required":                                             "config: the HMAC objects are device configuration (DIConfig/TO2Config); the dead nil test follows a method call on the same value",
+	"fdo.hmacVerify|HMAC-SHA256 support is required":                                           "config: HmacSha256 is mandatory device configuration",
+	"fdo.sendReadyServiceInfo|only SHA256 and SHA384 are supported in FDO":                     "the algorithm is the device's own credential hash type or the result of hashAlgFor (constants only)",
+	"fdo/cbor.Decoder.decodeStructField|<dynamic>":                                             "type-shape: depends on struct tags of the decode target, not on wire values",
+	"fdo/cbor.Encoder.encodeStruct|<dynamic>":                                                  "type-shape: depends on struct tags of the encoded type",
+	"fdo/cbor.flatN|invalid cbor struct tag 'flatNNN' option: …":                               "type-shape: struct tag syntax",
+	"fdo/cbor.fieldOrder$1|programming error - indices to sort cannot be a parent embedded field of another": "type-shape",
+	"fdo/cose.emptyOrSerializedMap.MarshalCBORStream|emptyOrSerializedMap does not support flattening":   "type-shape: `flattened` comes from struct tags",
+	"fdo/cose.emptyOrSerializedMap.UnmarshalCBORStream|emptyOrSerializedMap does not support flattening": "type-shape: `flattened` comes from struct tags",
+	"fdo/cbor.Encoder.encodeArray|negative array lengths are invalid":                          "impossible: the length is a reflect Len() result",
+	"fdo/cbor.Encoder.encodeMap|negative map lengths are invalid":                              "impossible: the length is a reflect Len() result",
+	"fdo/cbor.Encoder.encodeTextOrBinary|array contents were not fully copied into a slice for encoding": "impossible: reflect.Copy into a slice made with the array's length",
+	"fdo/cbor.additionalInfo|additionalInfo was not 1, 2, 4, or 8 bytes":                       "by construction: every caller passes the result of the head-size helper (1, 2, 4 or 8 bytes); checked by rule head-bytes",
+	"fdo/cbor.toU64|too many bytes to decode into a uint64 without overflowing":                "by construction: callers pass the additional-bytes buffer made with constant size 1/2/4/8 or a 1-byte literal; checked by rule head-bytes",
+	"fdo/cbor.overflows|programming error - invalid kind for overflow check":                   "validated by caller: the kind switch in decodePositive precedes the call",
+	"fdo/cbor.overflowsInt|programming error - invalid kind for overflow check":                "validated by caller: the kind switch in decodeNegative precedes the call",
+	"fdo/cbor.BytewiseLexicalSort$1|unreachable for valid CBOR map keys":                       "keys were marshalled by this encoder immediately before sorting",
+	"fdo/cbor/cdn.sortMap|<dynamic>":                                                           "debug notation only: keys were produced by this decoder and are re-encodable",
+	"fdo/internal/nistkdf.KDF|unsupported hash size":                                           "registry data: the PRF hash comes from a registered cipher suite (C09.cipher-registry pins it to SHA-256/384)",
+	"fdo/internal/nistkdf.KDF|n too large":                                                     "registry data: key sizes come from registered algorithms",
+	"fdo/kex.ecdhParam.MarshalBinary|invalid public key - too large":                           "own key: the encoded point is this side's freshly generated key",
+	"fdo/plugin.command.ParseParam|programming error - invalid pluginCommand":                  "local plugin protocol (child process), enumeration of own constants",
+	"fdo/plugin.command.ValidParamType|programming error - invalid pluginCommand":              "local plugin protocol (child process), enumeration of own constants",
+	"fdo/plugin.protocol.EncodeValue|<dynamic>":                                                "local plugin protocol (child process)",
+	"fdo/serviceinfo.ArraySizeCBOR|service info cannot contain > 65535 KVs":                    "local producer: counts service info produced by local modules within one MTU",
+	"fdo/serviceinfo.cborEncodedLen|KV cannot have length > max uint16":                        "local producer: sizes of locally produced chunks, bounded by the uint16 MTU",
+	"fdo/fsim.Command.receive|command should always be started":                                "invariant cmd!=nil => started, restored by fix 7f4b2aa and checked by rule cmd-started",
+	"fdo/fsim.Command.reset|command should always be started":                                  "invariant cmd!=nil => started, restored by fix 7f4b2aa and checked by rule cmd-started",
+	"fdo/sqlite.query|programming error - query must have the same number of columns and values": "call sites pass literal column lists and matching destinations (C18 extracts them)",
+}
+
+var ssaArtifactPanics = map[string]bool{
+	"blocking select matched no case":           true,
+	"iterator call did not preserve panic":      true,
+	"yield function called after range loop exit": true,
+	"range function continued iteration after function for loop body returned false": true,
+}
+
+// partialLookups: functions that panic on a value outside their table; every
+// call with a peer-controlled receiver needs a validator on all paths.
+var partialLookups = map[string]string{
+	"fdo/protocol.HashAlg.HashFunc":           "hashalg-safe",
+	"fdo/cose.SignatureAlgorithm.HashFunc":    "sigalg-safe",
+	"fdo/kex.CipherSuiteID.Suite":             "cipher-safe",
+	"fdo/cose.EncryptAlgorithm.NewCrypter":    "encalg-safe",
+	"fdo/cose.EncryptAlgorithm.SupportsAD":    "encalg-safe",
+	"fdo/cose.EncryptAlgorithm.KeySize":       "encalg-safe",
+	"fdo/cose.MacAlgorithm.NewMac":            "macalg-safe",
+	"fdo/cose.MacAlgorithm.KeySize":           "macalg-safe",
+}
+
+func e3Rules(p *Prog) *RuleSet {
+	typed := func(t string) func(m *Matcher, v ssa.Value) bool {
+		return func(m *Matcher, v ssa.Value) bool { return typeShort(v.Type()) == t }
+	}
+	constCase := func(name Atom, typ string) AtomDef {
+		return AtomDef{Name: name, Doc: "the value was matched against a constant of its enumeration", Edge: func(m *Matcher, pd Pred, holds bool) bool {
+			if pd.Kind != "eq" || !holds {
+				return false
+			}
+			_, cy := pd.Y.(*ssa.Const)
+			_, cx := pd.X.(*ssa.Const)
+			return (cy && typed(typ)(m, pd.X)) || (cx && typed(typ)(m, pd.Y))
+		}}
+	}
+	commaOkLookup := func(name Atom, global string) AtomDef {
+		return AtomDef{Name: name, Doc: "found in registry " + global, Edge: func(m *Matcher, pd Pred, holds bool) bool {
+			if pd.Kind != "bool" || !holds {
+				return false
+			}
+			ex, ok := pd.X.(*ssa.Extract)
+			if !ok || ex.Index != 1 {
+				return false
+			}
+			lk, ok := ex.Tuple.(*ssa.Lookup)
+			return ok && lk.CommaOk && m.Prov(lk.X).Has("global:"+global)
+		}}
+	}
+	return &RuleSet{
+		Atoms: []AtomDef{
+			boolTrue("hashalg-valid", "HashAlg.Valid() is true", named("fdo/protocol.HashAlg.Valid"), 0, nil),
+			constCase("hashalg-case", "fdo/protocol.HashAlg"),
+			commaOkLookup("sigalg-registered", "fdo/cose.sigAlgorithms"),
+			constCase("sigalg-case", "fdo/cose.SignatureAlgorithm"),
+			errNil("sigalg-accepted", "the device signature type was accepted by the key-type mapping (whose cases are all registered, C09.sigalg-registry)",
+				func(n string) bool { return strings.HasPrefix(n, "fdo.") }, func(m *Matcher, call ssa.CallInstruction, args []ssa.Value) bool {
+					return len(args) == 1 && typeShort(args[0].Type()) == "fdo/cose.SignatureAlgorithm"
+				}),
+			boolTrue("kex-available", "kex.Available is true", named("fdo/kex.Available"), 0, nil),
+			commaOkLookup("cipher-registered", "fdo/kex.ciphers"),
+			commaOkLookup("encalg-registered", "fdo/cose.encryptAlgorithms"),
+			commaOkLookup("encalg-info", "fdo/cose.encryptAlgorithmInfo"),
+			commaOkLookup("macalg-registered", "fdo/cose.macAlgorithms"),
+			commaOkLookup("macalg-size", "fdo/cose.macAlgorithmKeySizes"),
+			// G2/G3 value facts
+			{Name: "bounds", EdgeDyn: boundFacts},
+		},
+		Derive: []Derivation{
+			{"hashalg-safe", []Atom{"hashalg-valid"}}, {"hashalg-safe", []Atom{"hashalg-case"}},
+			{"sigalg-safe", []Atom{"sigalg-registered"}}, {"sigalg-safe", []Atom{"sigalg-case"}}, {"sigalg-safe", []Atom{"sigalg-accepted"}},
+			{"cipher-safe", []Atom{"kex-available"}}, {"cipher-safe", []Atom{"cipher-registered"}},
+			{"encalg-safe", []Atom{"encalg-registered"}}, {"encalg-safe", []Atom{"encalg-info"}},
+			{"macalg-safe", []Atom{"macalg-registered"}}, {"macalg-safe", []Atom{"macalg-size"}},
+		},
+	}
+}
+
+// intRoot strips conversions of an integer value.
+func intRoot(v ssa.Value) ssa.Value {
+	for {
+		switch x := v.(type) {
+		case *ssa.Convert:
+			v = x.X
+		case *ssa.ChangeType:
+			v = x.X
+		default:
+			return v
+		}
+	}
+}
+
+// boundFacts emits facts about integer SSA values established on an edge:
+//
+//	v:ub:<x>        x is bounded above by a constant or by len()/cap() of something
+//	v:lb0:<x>       x >= 0
+//	v:lt:<x>:<y>    x < len(y)        v:le:<x>:<y>   x <= len(y)
+//	v:lenge:<y>:<c> len(y) >= c (constant c)
+func boundFacts(m *Matcher, p Pred, holds bool) []Atom {
+	var out []Atom
+	name := func(v ssa.Value) string { return intRoot(v).Name() }
+	isConst := func(v ssa.Value) (int64, bool) { return constInt(intRoot(v)) }
+	// normalise to a strict/non-strict "a < b" / "a <= b" that is TRUE on this edge
+	var a, b ssa.Value
+	strict := false
+	switch p.Kind {
+	case "lt":
+		if holds {
+			a, b, strict = p.X, p.Y, true
+		} else {
+			a, b, strict = p.Y, p.X, false // !(x<y) => y<=x
+		}
+	case "le":
+		if holds {
+			a, b, strict = p.X, p.Y, false
+		} else {
+			a, b, strict = p.Y, p.X, true // !(x<=y) => y<x
+		}
+	case "eq":
+		if !holds {
+			return nil
+		}
+		// x == y: both directions non-strict
+		out = append(out, boundFactsLE(m, p.X, p.Y, false, name, isConst)...)
+		out = append(out, boundFactsLE(m, p.Y, p.X, false, name, isConst)...)
+		return out
+	default:
+		return nil
+	}
+	return boundFactsLE(m, a, b, strict, name, isConst)
+}
+
+func boundFactsLE(m *Matcher, a, b ssa.Value, strict bool, name func(ssa.Value) string, isConst func(ssa.Value) (int64, bool)) []Atom {
+	var out []Atom
+	if _, ok := intRoot(a).Type().Underlying().(interface{ Kind() int }); ok {
+	}
+	// a (<|<=) b
+	if cb, ok := isConst(b); ok {
+		if _, aConst := isConst(a); !aConst {
+			out = append(out, "v:ub:"+name(a))
+			if la := lenOf(m, intRoot(a)); la != nil {
+				_ = la
+			}
+		}
+		_ = cb
+	}
+	if lb := lenOf(m, intRoot(b)); lb != nil {
+		if _, aConst := isConst(a); !aConst {
+			out = append(out, "v:ub:"+name(a))
+			if strict {
+				out = append(out, "v:lt:"+name(a)+":"+lb.Name())
+			}
+			out = append(out, "v:le:"+name(a)+":"+lb.Name())
+		} else if ca, _ := isConst(a); true {
+			// c (<|<=) len(y)  => len(y) >= c (+1 if strict)
+			c := ca
+			if strict {
+				c++
+			}
+			for k := int64(0); k <= c && k <= 64; k++ {
+				out = append(out, "v:lenge:"+lb.Name()+":"+itoa(int(k)))
+			}
+		}
+	}
+	if ca, ok := isConst(a); ok {
+		if _, bConst := isConst(b); !bConst && (ca >= 0 || (ca == -1 && strict)) {
+			out = append(out, "v:lb0:"+name(b))
+		}
+	}
+	// x (<|<=) y with y itself bounded is not tracked (no transitivity)
+	return out
+}
+
+// panicObligations adds the G1 obligations for the region reachable from roots.
 func panicObligations(c *Ctx, p *Prog, r *Result, prefix string, roots []*ssa.Function, skip func(*ssa.Function) bool) {
+	e := &E3{p: p, roots: roots}
+	e.region = p.Reachable(roots, func(fn *ssa.Function) bool { return isHarnessPkg(funcPkgPath(fn)) || (skip != nil && skip(fn)) })
+	for fn := range e.region {
+		e.order = append(e.order, fn)
+	}
+	sort.Slice(e.order, func(i, j int) bool { return p.FuncName(e.order[i]) < p.FuncName(e.order[j]) })
+	e.t = newTaint(p, e.region)
+	e.g1(r, prefix)
+}
+
+func (e *E3) g1(r *Result, prefix string) {
+	p := e.p
+	rule := prefix + ".panics"
+	r.rule(rule, "G1: every explicit panic reachable from the entry points is an SSA artifact, is guarded only by conditions no peer-controlled value reaches, or is in the reviewed table (function|message -> reason); any other panic is a violation")
+	seen := map[string]bool{}
+	for _, fn := range e.order {
+		k := 0
+		for _, b := range fn.Blocks {
+			pn, ok := b.Instrs[len(b.Instrs)-1].(*ssa.Panic)
+			if !ok {
+				continue
+			}
+			k++
+			msg := panicMessage(pn)
+			key := p.FuncName(fn) + "|" + msg
+			construct := fmt.Sprintf("panic #%d in %s (%s)", k, p.FuncName(fn), msg)
+			switch {
+			case ssaArtifactPanics[msg]:
+				r.table(p, rule, construct, p.instrPos(pn), true, "SSA artifact (select/range-over-func lowering), unreachable")
+			default:
+				ct, where := e.condTainted(b)
+				if !ct {
+					r.table(p, rule, construct, p.instrPos(pn), true, "no peer-controlled value reaches a guarding condition (programmer/configuration error)")
+					continue
+				}
+				seen[key] = true
+				if msg == "unreachable" && exhaustive3bit(fn) {
+					r.table(p, rule, construct, p.instrPos(pn), true, "exhaustive: follows a switch whose cases cover all eight values of the 3-bit major type")
+				} else if reason, ok := reviewedPanics[key]; ok {
+					r.table(p, rule, construct, p.instrPos(pn), true, "reviewed: "+reason+" [tainted condition at "+where+"]")
+				} else if _, isLookup := partialLookups[p.FuncName(fn)]; isLookup {
+					r.table(p, rule, construct, p.instrPos(pn), true, "partial lookup: discharged per call site by rule "+prefix+".partial-lookups")
+				} else {
+					r.table(p, rule, construct, p.instrPos(pn), false, "explicit panic guarded by a peer-controlled condition at "+where+" and not in the reviewed table")
+				}
+			}
+		}
+	}
+
+	// the fsim command module's invariant "cmd != nil => process started"
+	e.cmdStarted(r, prefix)
+
+	// partial lookups, per call site
+	rule2 := prefix + ".partial-lookups"
+	r.rule(rule2, "G1c: every call of a registry/enumeration accessor that panics on unknown values (HashAlg.HashFunc, SignatureAlgorithm.HashFunc, CipherSuiteID.Suite, Encrypt/MacAlgorithm accessors) whose receiver is peer-controlled is dominated by a validator (Valid(), registry lookup ok, kex.Available, accepted signature type, or a constant case)")
+	f := NewFlow(p, e3Rules(p), e.roots, nil)
+	for _, fn := range e.order {
+		if !f.Region[fn] {
+			continue
+		}
+		for _, b := range fn.Blocks {
+			for _, in := range b.Instrs {
+				call, ok := in.(ssa.CallInstruction)
+				if !ok {
+					continue
+				}
+				atom, isLookup := partialLookups[p.calleeOf(call.Common()).Name]
+				if !isLookup {
+					continue
+				}
+				recv := allArgs(call)[0]
+				if !e.t.Is(recv) {
+					r.table(p, rule2, siteKey(p, call), p.instrPos(call), true, "receiver is not peer-controlled")
+					continue
+				}
+				if pv := f.matcherFor(fn).Prov(recv); pv.Has("field:fdo/kex.CipherSuite.EncryptAlg") || pv.Has("field:fdo/kex.CipherSuite.MacAlg") {
+					r.table(p, rule2, siteKey(p, call), p.instrPos(call), cipherSuiteLiteralsOnlyInInit(p), "registry data: the algorithm is a field of a kex.CipherSuite, and CipherSuite values are built only in init (RegisterCipherSuite) — checked; their algorithms are registered (C09.cipher-registry)")
+					continue
+				}
+				// inside the accessor family itself (e.g. NewCrypter calling KeySize on its own receiver) the caller's obligation covers it
+				if _, self := partialLookups[p.FuncName(fn)]; self {
+					r.table(p, rule2, siteKey(p, call), p.instrPos(call), true, "accessor calling a sibling accessor on its own receiver")
+					continue
+				}
+				r.requireAtSites(f, rule2, []ssa.CallInstruction{call}, []Atom{atom})
+			}
+		}
+	}
+}
+
+// exhaustive3bit: fn compares one uint8 value against all of 0..7.
+func exhaustive3bit(fn *ssa.Function) bool {
+	byVal := map[ssa.Value]map[int64]bool{}
+	for _, b := range fn.Blocks {
+		for _, in := range b.Instrs {
+			bo, ok := in.(*ssa.BinOp)
+			if !ok || bo.Op != token.EQL {
+				continue
+			}
+			c, ok := constInt(bo.Y)
+			if !ok || c < 0 || c > 7 {
+				continue
+			}
+			if byVal[bo.X] == nil {
+				byVal[bo.X] = map[int64]bool{}
+			}
+			byVal[bo.X][c] = true
+		}
+	}
+	for v, cs := range byVal {
+		if len(cs) == 8 && v.Type().Underlying().String() == "byte" || len(cs) == 8 && v.Type().Underlying().String() == "uint8" {
+			return true
+		}
+	}
+	return false
+}
+
+// cipherSuiteLiteralsOnlyInInit: composite literals of kex.CipherSuite occur
+// only in package init functions.
+func cipherSuiteLiteralsOnlyInInit(p *Prog) bool {
+	for _, fn := range p.Funcs {
+		if isHarnessPkg(funcPkgPath(fn)) {
+			continue
+		}
+		for _, b := range fn.Blocks {
+			for _, in := range b.Instrs {
+				if al, ok := in.(*ssa.Alloc); ok && typeShort(al.Type()) == "fdo/kex.CipherSuite" && len(litFields(al)) > 0 {
+					if !strings.HasPrefix(fn.Name(), "init") {
+						return false
+					}
+				}
+			}
+		}
+	}
+	return true
+}
+
+// cmdStarted: wherever exec.Cmd.Start fails, the struct field holding the
+// command is cleared before the function returns (so that later code testing
+// that field never sees a command without a process).
+func (e *E3) cmdStarted(r *Result, prefix string) {
+	p := e.p
+	rule := prefix + ".cmd-started"
+	for _, fn := range e.order {
+		var starts []ssa.CallInstruction
+		for _, b := range fn.Blocks {
+			for _, in := range b.Instrs {
+				if call, ok := in.(ssa.CallInstruction); ok && p.calleeOf(call.Common()).Name == "os/exec.Cmd.Start" {
+					starts = append(starts, call)
+				}
+			}
+		}
+		if len(starts) == 0 {
+			continue
+		}
+		r.rule(rule, "where exec.Cmd.Start returns an error, the field holding the command is set to nil before the function returns (invariant behind the reviewed 'command should always be started' panics)")
+		rs := &RuleSet{Atoms: []AtomDef{
+			{Name: "start-failed", Edge: func(m *Matcher, pd Pred, holds bool) bool {
+				if pd.Kind != "nil" || holds {
+					return false
+				}
+				n, _, call := m.ResultOf(pd.X)
+				return call != nil && n == "os/exec.Cmd.Start"
+			}},
+			{Name: "cmd-cleared", ExecAny: func(m *Matcher, in ssa.Instruction) bool {
+				st, ok := in.(*ssa.Store)
+				if !ok {
+					return false
+				}
+				c, isConst := st.Val.(*ssa.Const)
+				_, isField := st.Addr.(*ssa.FieldAddr)
+				return isConst && c.IsNil() && isField && strings.Contains(st.Val.Type().String(), "exec.Cmd")
+			}},
+		}}
+		f := NewFlow(p, rs, []*ssa.Function{fn}, func(g *ssa.Function) bool { return g != fn })
+		for i, b := range fn.Blocks {
+			ret, ok := b.Instrs[len(b.Instrs)-1].(*ssa.Return)
+			if !ok {
+				continue
+			}
+			st := f.StateAt(ret)
+			if st.top || !st.Has("start-failed") {
+				continue
+			}
+			r.table(p, rule, fmt.Sprintf("failure return #%d of %s", i, p.FuncName(fn)), p.instrPos(ret), st.Has("cmd-cleared"), "command field cleared before returning the Start error")
+		}
+	}
 }
